@@ -339,6 +339,13 @@ class PolyEnv:
             # divmod(a, b)[0] is a // b and [1] is a % b
             a_, b_ = e.value.args
             return self.poly(ast.BinOp(left=a_, op=ast.FloorDiv() if e.slice.value == 0 else ast.Mod(), right=b_))
+        if isinstance(e, ast.Subscript) and isinstance(e.value, ast.Call) and dotted(e.value.func) == "range" and 1 <= len(e.value.args) <= 3 \
+                and not isinstance(e.slice, (ast.Slice, ast.Tuple)):
+            # range(a, b, s)[k] is a + s*k
+            a_ = e.value.args
+            start = self.poly(a_[0]) if len(a_) >= 2 else Poly.const(0)
+            step = self.poly(a_[2]) if len(a_) == 3 else Poly.const(1)
+            return start + step * self.poly(e.slice)
         if isinstance(e, ast.Subscript) and isinstance(e.value, ast.ListComp) and len(e.value.generators) == 1 and not e.value.generators[0].ifs \
                 and isinstance(e.value.generators[0].target, ast.Name) and isinstance(e.value.generators[0].iter, ast.Call) \
                 and dotted(e.value.generators[0].iter.func) == "range" and len(e.value.generators[0].iter.args) == 1 and not isinstance(e.slice, (ast.Slice, ast.Tuple)):
